@@ -25,6 +25,18 @@ Theorem week_numbers_in_range : forall d, valid_date d = true ->
   (0 <= sunday_week d <= 53 /\ 0 <= monday_week d <= 53 /\ 1 <= snd (iso_year_week d) <= 53)%Z.
 Proof. exact DateProofs.week_ranges. Qed.
 
+(* ISO 8601 (%G %g %V): the week-year of a day is the civil year that contains the Thursday of its week, and
+   the week number counts the Thursdays of that year — for every date of every year *)
+Theorem iso_week_is_the_thursday_rule : forall d, valid_date d = true ->
+  let T := (date_days d - wd_mon0 d + 3)%Z in
+  let Y := fst (iso_year_week d) in
+  (jan1 Y <= T < jan1 (Y + 1))%Z /\ snd (iso_year_week d) = ((T - jan1 Y) / 7 + 1)%Z.
+Proof. exact DateProofs.iso_week_is_the_thursday_rule. Qed.
+Theorem day_number_of_ordinal : forall d, valid_date d = true -> date_days d = (jan1 (d_year d) + ordinal d - 1)%Z.
+Proof. exact DateProofs.days_of_ordinal. Qed.
+Theorem year_lengths : forall y, jan1 (y + 1) = (jan1 y + year_len y)%Z.
+Proof. exact DateProofs.jan1_next. Qed.
+
 (* ---- equality and ordering are chronological, whatever the offsets ---- *)
 Theorem order_is_chronological : forall a b,
   scalar_cmp (SDateTime a) (SDateTime b) = Some (Z.compare (dt_instant a) (dt_instant b)) /\
@@ -67,17 +79,19 @@ Theorem fraction_directive : forall ns n, (0 <= ns < 1000000000)%Z -> 1 <= n ->
   fmt_fraction ns n = fmt_fraction ns (Nat.min n 9) ++ rep 48%N (n - 9).
 Proof. exact DateProofs.fraction_directive. Qed.
 
-(* ---- the default printed form parsed back ----
-   FULL STATEMENT: forall printable t, parse_default (show_datetime t) = Some t.
-   PROVED for whole seconds; the sub-second half is checked by the correspondence only. *)
-Theorem display_parse_roundtrip_partial : forall t, printable t -> dt_nano t = 0%Z ->
-  parse_default (show_datetime t) = Some t.
-Proof. exact DateProofs.display_parse_roundtrip_whole_seconds. Qed.
+(* ---- the default printed form parsed back: every printable date-time, sub-seconds included
+   (the fraction is printed as nine digits with the trailing zeros removed and scaled back) ---- *)
+Theorem display_parse_roundtrip : forall t, printable t -> parse_default (show_datetime t) = Some t.
+Proof. exact DateProofs.display_parse_roundtrip. Qed.
+Theorem fraction_digits_scale_back : forall ns, (0 < ns < 1000000000)%Z ->
+  let a := strip_trailing 48%N (pad_left 48%N 9 (show_Z ns)) in
+  forallb is_digit a = true /\ 1 <= length a <= 9 /\ scale9 (firstn 9 a) = ns.
+Proof. exact DateProofs.fraction_digits. Qed.
 
 (* non-vacuity: the test fixture of strftime.rs, 5 ms through %L, a leap day, a non-ASCII directive *)
 Example c17_nonvacuous :
   let t := mkDT (mkDate 2024 2 29) 7 56 37 5000000 21600 in
-  printable (mkDT (mkDate 2024 2 29) 7 56 37 0 21600) /\
+  printable t /\ show_datetime t = [50;48;50;52;45;48;50;45;50;57;32;48;55;58;53;54;58;51;55;46;48;48;53;32;43;48;54;48;48]%N /\
   strftime t [37;76]%N = Ok [48;48;53]%N /\                                   (* %L -> 005 *)
   strftime t [37;106;32;37;97;32;37;86]%N = Ok [48;54;48;32;84;104;117;32;48;57]%N /\   (* %j %a %V -> 060 Thu 09 *)
   strftime t [37;233;33]%N = Ok [37;233;33]%N /\                               (* %é! echoed *)
@@ -95,6 +109,9 @@ Print Assumptions weekday_advances.
 Print Assumptions day_of_year_first_last.
 Print Assumptions day_of_year_advances.
 Print Assumptions week_numbers_in_range.
+Print Assumptions iso_week_is_the_thursday_rule.
+Print Assumptions day_number_of_ordinal.
+Print Assumptions year_lengths.
 Print Assumptions order_is_chronological.
 Print Assumptions same_instant_any_offset.
 Print Assumptions instant_of_components.
@@ -107,4 +124,5 @@ Print Assumptions unknown_directive_echoed.
 Print Assumptions non_ascii_directive_echoed.
 Print Assumptions numeric_directive_denotes.
 Print Assumptions fraction_directive.
-Print Assumptions display_parse_roundtrip_partial.
+Print Assumptions display_parse_roundtrip.
+Print Assumptions fraction_digits_scale_back.
